@@ -40,7 +40,7 @@ Definition mismatches (l : list case) : list nat := mism_idx agree l.
    [s] is the reply computed from this request's content alone.  A websocket
    connection closed without a reason still reports an error to that client. *)
 Definition sat_reply (ws : bool) (s o : reply) : bool :=
-  agree_reply s o ||
+  reply_eqb s o ||
   (ws && is_err s && match o with RErr EAbnormal _ => true | _ => false end).
 
 Definition not_answered (o : reply) : bool :=
@@ -66,7 +66,9 @@ Definition hist_writes (h : hist) (ri : nat) : list write :=
    3 a handler error or panic was answered as a success
    4 the request was not answered at all (connection or server affected)
    5 a keeping client's request was not answered because an EARLIER request on that
-     connection had failed *)
+     connection had failed
+   6 as 2, but a string / byte field of the reply is TORN: pointer of one concurrent
+     request's value, length of another's (data race on the shared decoded argument) *)
 Definition classify (w : world) (clients : list ckind) (h : hist) (rd : list creq) (i : nat)
            (cr : creq) (s o : reply) : nat :=
   match c_req cr with
@@ -75,9 +77,10 @@ Definition classify (w : world) (clients : list ckind) (h : hist) (rd : list cre
       | Some (ri, r, p) =>
           match p_out p with
           | PCall =>
-              if explained r (cands false (acell_of zero_msg ++ hist_writes h ri) (p_writes p)
-                                    (other_writes w rd ri i 0)) o
-              then 2
+              let cs := cands false (acell_of zero_msg ++ hist_writes h ri) (p_writes p)
+                              (other_writes w rd ri i 0) in
+              if explained r false cs o then 2
+              else if match other_writes w rd ri i 0 with [] => false | _ => true end && explained r true cs o then 6
               else if handler_failure s && negb (is_err o) then 3
               else if not_answered o then 4 else 1
           | PReply _ => if not_answered o then 4 else 1
